@@ -22,17 +22,22 @@ namespace nmtools::index
             result.resize(dim);
         }
 
+        // a negative axis counts from the last axis, as in numpy.flip
+        [[maybe_unused]] auto normalize = [&](const auto axis){
+            const auto a = (long long)axis;
+            return (size_t)((a < 0) ? (a + (long long)(size_t)dim) : a);
+        };
+
         for (size_t i=0; i<(size_t)dim; i++) {
             if constexpr (meta::is_index_array_v<axes_t>) {
                 auto in_axis = static_cast<bool>(
                     index::count([&](const auto ii){
-                        using common_t = meta::promote_index_t<decltype(ii),size_t>;
-                        return (common_t)ii == (common_t)i;
+                        return normalize(ii) == i;
                     }, axes)
                 );
                 nmtools::get<2>(at(result,i)) = in_axis ? -1 : 1;
             } else if constexpr (meta::is_index_v<axes_t>) {
-                nmtools::get<2>(at(result,i)) = ((size_t)axes == i) ? -1 : 1;
+                nmtools::get<2>(at(result,i)) = (normalize(axes) == i) ? -1 : 1;
             } else if constexpr (is_none_v<axes_t>) {
                 nmtools::get<2>(at(result,i)) = -1;
             }
